@@ -138,13 +138,16 @@ EmitInv == inbox # <<>> => PrintT(<<"RECOVER", ToJson(Line)>>)
 ---------------------------------------------------------------------------
 (* client populations *)
 Cl(m, e, t, aux, src) == [m |-> Str(m), e |-> Str(e), t |-> t, aux |-> aux, src |-> src]
+\* a threshold-2 group, a threshold-3 group of the same measurement (differs in the threshold
+\* only; four clients, so that a repeated share can sit among the first three), another measurement
 Clients_Q ==
   << Cl(<<1>>, <<1>>, 2, NoAux, "local"),
      Cl(<<1>>, <<1>>, 2, Aux(<<>>), "local"),
-     Cl(<<1>>, <<1>>, 2, Aux(<<1, 2>>), "local"),
-     Cl(<<2>>, <<1>>, 2, Aux(<<2>>), "local"),
-     Cl(<<2>>, <<1>>, 2, NoAux, "local"),
-     Cl(<<1>>, <<1>>, 3, NoAux, "local") >>
+     Cl(<<1>>, <<1>>, 3, Aux(<<1, 2>>), "local"),
+     Cl(<<1>>, <<1>>, 3, NoAux, "local"),
+     Cl(<<1>>, <<1>>, 3, Aux(<<2>>), "local"),
+     Cl(<<1>>, <<1>>, 3, Aux(<<1>>), "local"),
+     Cl(<<2>>, <<1>>, 2, Aux(<<2, 2>>), "local") >>
 \* thresholds 1 and 3, an epoch-only difference, the randomness-server source, threshold 0
 Clients_T ==
   << Cl(<<1>>, <<1>>, 3, NoAux, "local"),
